@@ -35,32 +35,27 @@ JVM = ('-Xss64m',)       # the growth loop is a recursive operator (indices up t
 READS = ('get', 'iterate', 'get_map', 'iterate_map', 'is_set', 'is_cleared', 'del_map')
 
 
-def extract_printed(stdout, tag):
-    """C.extract_printed for values that TLC pretty-prints over several lines
-    (`<< "BEH",` with a blank after the bracket)"""
+_TOK = None
+
+
+def extract_spans(stdout, tag):
+    """The text of every value printed with PrintT(<<tag, ...>>).  (C.extract_printed does not
+    find values that TLC pretty-prints over several lines: `<< "BEH",` has a blank after the
+    bracket.)  Parsing is left to the caller: only a sample is replayed."""
     import re
+    global _TOK
+    _TOK = _TOK or re.compile(r'"(?:[^"\\]|\\.)*"|<<|>>')
     out = []
     for m in re.finditer(r'<<\s*"%s"' % tag, stdout):
-        depth, k, instr, n = 0, m.start(), False, len(stdout)
-        while k < n:
-            ch = stdout[k]
-            if instr:
-                if ch == '\\':
-                    k += 1
-                elif ch == '"':
-                    instr = False
-            elif ch == '"':
-                instr = True
-            elif stdout.startswith('<<', k):
+        depth = 0
+        for t in _TOK.finditer(stdout, m.start()):
+            if t.group(0) == '<<':
                 depth += 1
-                k += 1
-            elif stdout.startswith('>>', k):
+            elif t.group(0) == '>>':
                 depth -= 1
-                k += 1
                 if depth == 0:
+                    out.append(stdout[m.start():t.end()])
                     break
-            k += 1
-        out.append(C.parse_tla(stdout[m.start():k + 1]))
     return out
 
 
@@ -433,6 +428,8 @@ def do_replay(path):
     for j, c in enumerate(tr['calls'][:upto]):
         print('  %3d %-11s i=%-5s k=%s a=%s mk=%s -> %s %s' % (
             j + 1, c['op'], c['i'], c['k'], c['a'], c['mk'], c['r'], c['rl'] if c['rl'] else ''))
+        if 'py_calls' in tr:
+            print('        %s' % tr['py_calls'][j])
     if v[0] == 'REJECT':
         print('VIOLATION property=%s replay=%s clause=%s' % (PROP, path, v[2]))
         return 1
@@ -451,26 +448,33 @@ def main(tier, replay):
     # 1. exhaustive model checking: one configuration per data type x default/no default
     jobs = []
 
-    def job(dtn, defaults, steps, tails, indices={0, 1, 2, 3}, count=True):
-        jobs.append(dict(Indices=indices, Tails=tails, MapKeys={0, 1}, IntVals={1, 2},
-                         DataTypes={dtn}, Defaults=defaults, MaxSteps=steps, CountSteps=count,
-                         KeepHist=False))
-    for dtn in DTS:
-        for defaults in ({99}, {0, 1} if thorough else {0}):
+    def job(dtn, defaults, steps, tails, indices={0, 1, 2, 3}, count=True, cov=True):
+        jobs.append((dict(Indices=indices, Tails=tails, MapKeys={0, 1}, IntVals={1, 2},
+                          DataTypes={dtn}, Defaults=defaults, MaxSteps=steps, CountSteps=count,
+                          KeepHist=False), cov))
+    for dtn in reversed(DTS):      # (the most expensive configurations first)
+        with_default = {0, 1} if thorough and dtn not in ('obj', 'mapper') else {0}
+        for defaults in ({99}, with_default):
             if not thorough:       # histories of <= 6 calls
                 job(dtn, defaults, 6, {0}, {0, 1, 3} if dtn == 'mapper' else {0, 1, 2, 3})
-            else:                  # <= 7 calls with two key tails, <= 8 calls with one
-                job(dtn, defaults, 7, {0, 1})
+            elif dtn != 'mapper':  # <= 7 calls with two key tails, <= 8 calls with one
+                job(dtn, defaults, 7, {0, 1}, cov=False)   # (-coverage doubles the cost)
                 job(dtn, defaults, 8, {0})
+            else:                  # (the allocator makes the mapper state space much larger)
+                job(dtn, defaults, 7, {0, 1}, {0, 1, 3}, cov=False)
+                job(dtn, defaults, 8, {0}, cov=False)
+                job(dtn, defaults, 6, {0})
     if thorough:     # the complete reachable state space of the value stores (no history bound)
         for dtn in DTS[:-1]:
-            job(dtn, {99, 0}, 0, {0}, count=False)
+            job(dtn, {99, 0}, 0, {0}, count=False, cov=False)
 
-    def mc(const):
+    def mc(j):
+        const, cov = j
         return C.run_tlc('Store', C.cfg(constants=const, invariants=INVARIANTS,
                                         properties=PROPERTIES,
                                         constraints=['StepBound'] if const['CountSteps'] else []),
-                         coverage=True, workers=4 if thorough else 2)
+                         coverage=cov, workers=4 if thorough else 2)
+
     # 2. behaviour generation (runs concurrently with model checking)
     tiny = dict(Indices={0, 2}, Tails={0}, MapKeys={0}, IntVals={1}, MaxSteps=4 if thorough else 3,
                 CountSteps=True, KeepHist=True)
@@ -478,7 +482,7 @@ def main(tier, replay):
     if thorough:
         gens.append((dict(tiny, Indices={0, 1, 3}, MapKeys={0, 1}, MaxSteps=4, DataTypes={'mapper'},
                           Defaults={99}), None))
-    nsim = 1500 if thorough else 150
+    nsim = 800 if thorough else 60
     simc = dict(Indices={0, 1, 2, 3}, Tails={0, 1}, MapKeys={0, 1}, IntVals={1, 2},
                 DataTypes=set(DTS), Defaults={99, 0, 1, 2}, MaxSteps=14, CountSteps=True,
                 KeepHist=True)
@@ -493,18 +497,18 @@ def main(tier, replay):
         else:
             r = C.run_tlc('Store', text, workers=1, simulate='num=%d' % sim,
                           depth=const['MaxSteps'] + 1, tlc_seed=C.seed() + 14)
-        return extract_printed(r.stdout, 'BEH'), sim is None, const
+        return extract_spans(r.stdout, 'BEH'), sim is None, const
 
     results = C.par([lambda c=c: mc(c) for c in jobs] + [lambda j=j: gen(j) for j in gens],
                     max_workers=8)
-    mc_stats = list(zip(jobs, results[:len(jobs)]))
+    mc_stats = [(const, r) for (const, _), r in zip(jobs, results[:len(jobs)])]
     never = {}
-    for const, r in mc_stats:
+    for (const, cov), r in zip(jobs, results[:len(jobs)]):
         if r.violated:
             raise C.MachineryError('Store model violates %s with %s:\n%s'
                                    % (r.violated, const, r.error_trace))
         (dtn,) = const['DataTypes']
-        for a in COMMON_ACTIONS + (MAP_ACTIONS if dtn == 'mapper' else VALUE_ACTIONS):
+        for a in [] if not cov else COMMON_ACTIONS + (MAP_ACTIONS if dtn == 'mapper' else VALUE_ACTIONS):
             if a not in r.coverage:
                 raise C.MachineryError('no coverage information for action %s' % a)
             if r.coverage[a][1] == 0:
@@ -524,7 +528,7 @@ def main(tier, replay):
             b = rng_gen.sample(b, cap if exhaustive else cap_sim)
         gen_counts.append({'data_types': sorted(const['DataTypes']), 'exhaustive': exhaustive,
                            'max_steps': const['MaxSteps'], 'generated': n_all, 'replayed': len(b)})
-        behaviours += b
+        behaviours += [C.parse_tla(x) for x in b]
         if n_all == 0:
             raise C.MachineryError('no behaviour generated for %s' % const)
 
